@@ -1330,7 +1330,7 @@ class CharStr:
     _WS = (32, 9, 10, 11, 12, 13)
 
     def _is_ws(self, ch, chars):
-        codes = self._WS if chars is None else [ord(x) for x in chars]
+        codes = self._WS if chars is None else self._codes(chars)
         return self._disj([self._eqc(ch, w) for w in codes])
 
     def lstrip(self, chars=None):
